@@ -521,7 +521,9 @@ def job_of(C, jid):
 
 def outcome_problem(ctx, C, o, jid, m, dim, what_input):
     """panic / timeout / crash of one call -> violation; returns True when the call produced a value"""
-    if o is None or o.get("kind") == "harness_crash":
+    if o is None:
+        return False          # the job was not run in this pass
+    if o.get("kind") == "harness_crash":
         ctx.violation("S5", f"{call_text(m, dim)} crashed the process on {what_input}", dict(msig(m), kind="crash", dim=dim),
                       {"job": job_of(C, jid), "observation": o})
         return False
